@@ -1088,19 +1088,23 @@ impl SvgElement {
     fn eval_size_attr(&self, name: &str, value: &str, ctx: &impl ElementMap) -> Result<String> {
         if let Ok(attr_ss) = ScalarSpec::from_str(name) {
             if let (Some(el), remain) = split_relspec(value, ctx)? {
-                if let Ok(Some(bbox)) = ctx.get_element_bbox(el) {
-                    // default value - same 'type' as attr name, e.g. y2 => ymax
-                    let mut v = bbox.scalarspec(attr_ss);
-                    // "[~scalarspec][ delta]"
-                    let (ss_str, dxy) = remain.split_once(' ').unwrap_or((remain, ""));
-                    if let Some(ss) = ss_str.strip_prefix(SCALARSPEC_SEP) {
-                        v = bbox.scalarspec(ss.parse()?);
-                    }
-                    if let Ok(len) = strp_length(dxy) {
-                        v = len.adjust(v);
-                    }
-                    return Ok(fstr(v));
+                // As for positions: a target which is not ready, or has no bounding box,
+                // must not be skipped (the unresolved size would be written out as it is,
+                // or dropped, for shapes whose own geometry has no width / height).
+                let bbox = ctx
+                    .get_element_bbox(el)?
+                    .ok_or_else(|| SvgdxError::MissingBoundingBox(el.to_string()))?;
+                // default value - same 'type' as attr name, e.g. y2 => ymax
+                let mut v = bbox.scalarspec(attr_ss);
+                // "[~scalarspec][ delta]"
+                let (ss_str, dxy) = remain.split_once(' ').unwrap_or((remain, ""));
+                if let Some(ss) = ss_str.strip_prefix(SCALARSPEC_SEP) {
+                    v = bbox.scalarspec(ss.parse()?);
                 }
+                if let Ok(len) = strp_length(dxy) {
+                    v = len.adjust(v);
+                }
+                return Ok(fstr(v));
             }
         }
         Ok(value.to_owned())
